@@ -695,7 +695,7 @@ class LinComb:
 
         # Use bounds check gadget from Bulletproofs
         (self - rangemin).assert_positive()
-        (rangemax - self).assert_positive()
+        (rangemax - self - 1).assert_positive()
 
     @classmethod
     def _ensurelc(cls, val):
